@@ -45,7 +45,7 @@ ID = "C14"
 LEVEL = "exploration"
 RULE = (
     "part 1: definitions = 1-2 declared fields from {forTypes[int], forTypes[str,None], forTypes[list], "
-    "forTypes[dict], forValue, serializer+extraValidator, forTypes with an extra validator}; plus all histories of <= 4 MemoryLogger operations {valid message, invalid message, validate, reset, traceback, flush}; message kinds = {MessageType, ActionType "
+    "forTypes[dict], forValue, serializer+extraValidator, forTypes with an extra validator}; plus all histories of <= 4 MemoryLogger operations {valid message, invalid message, invalid message whose value equals the valid one (1.0 for 1), validate, reset, traceback, flush}; message kinds = {MessageType, ActionType "
     "start, success, failure (with extractor fields), eliot:traceback (with extractor fields), untyped}; "
     "deviations (one at a time, at every applicable field) = {missing, extra field named extra / reason "
     "/ exception / message_type / action_status / task_uuid2, wrong type, validator-rejected, forValue "
@@ -112,7 +112,7 @@ def units(tier):
     return [["def", d] for d in definitions(tier)] + [["tests"], ["histories"]]
 
 
-HIST_OPS = ["good", "bad", "validate", "reset", "tb", "flush"]
+HIST_OPS = ["good", "bad", "validate", "reset", "tb", "flush", "bad-equal"]  # bad-equal: a value of the wrong type that equals the valid one (1.0 for 1)
 
 
 def run_history(ops):
@@ -126,6 +126,9 @@ def run_history(ops):
         for op in ops:
             if op == "good":
                 logger.write({"message_type": "c14:h", "n": 1, "task_uuid": "u", "task_level": [1], "timestamp": 1.0}, T._serializer)
+            elif op == "bad-equal":
+                logger.write({"message_type": "c14:h", "n": 1.0, "task_uuid": "u", "task_level": [1], "timestamp": 1.0}, T._serializer)
+                bad = True
             elif op == "bad":
                 logger.write({"message_type": "c14:h", "n": "x", "task_uuid": "u", "task_level": [1], "timestamp": 1.0}, T._serializer)
                 bad = True
